@@ -16,7 +16,7 @@ import core
 LICS = ["MIT", "0BSD", "ISC", "Zlib", "Apache-2.0", "CC0-1.0", "GPL-3.0-or-later", "BSD-3-Clause",
         "MPL-2.0", "EUPL-1.2", "Unlicense", "AGPL-3.0-only", "LGPL-2.1-or-later", "CC-BY-4.0",
         "BSL-1.0", "Artistic-2.0", "ECL-2.0", "OFL-1.1", "PostgreSQL", "Vim", "W3C", "X11", "curl", "WTFPL"]
-PREFIX = {"bare": "", "hash": "# ", "slashes": "// ", "tight": "", "file": "# "}
+PREFIX = {"bare": "", "hash": "# ", "slashes": "// ", "tight": "", "file": "# ", "filepoison": "# "}
 PAD = "x" * 4200
 S, E = "REUSE-IgnoreStart", "REUSE-IgnoreEnd"  # REUSE-IgnoreStart (keeps this file lint-clean)
 
@@ -42,7 +42,7 @@ def render(toks: list, idxs: list, form: str) -> str:
     (form 'tight': adjacent markers touch), every line starts with the form's comment prefix.
     Form 'file': the first T token carries > 4 KiB of padding (so blocks straddle the 4096-byte window)."""
     pre = PREFIX[form]
-    padded = next((i for i, t in enumerate(toks, 1) if t == "T"), 0) if form == "file" else 0
+    padded = next((i for i, t in enumerate(toks, 1) if t == "T"), 0) if form in ("file", "filepoison") else 0
     lines = [""]
     prev = None
     for i in idxs:
@@ -105,13 +105,13 @@ def observe(text: str, toks: list) -> dict:
     return o
 
 
-def observe_file(text: str, toks: list) -> dict:
+def observe_file(text: str, toks: list, poison: bool = False) -> dict:
     """The same observation through the CLI: a one-file project read by `reuse lint --json`.
     The file ends with an SPDX snippet marker, so the whole file is to be scanned."""
     import shutil
     d = core.scratch_dir("c12-")
     try:
-        (d / "f.py").write_text(text + "\n# SPDX-SnippetBegin\n")
+        (d / "f.py").write_text(("# SPDX-License-Identifier: MIT OR\n" if poison else "") + text + "\n# SPDX-SnippetBegin\n")
         r = core.run_reuse(["--root", str(d), "--no-multiprocessing", "lint", "--json"])
         if r["exc"] or r["exit"] not in (0, 1):
             return {"err": True, "lic": [], "cop": [], "con": [], "raw": ["CRASH:" + str(r["exc"] or r["exit"])[-200:]]}
@@ -142,7 +142,9 @@ def replay_case(case: dict) -> dict:
     toks, form, vis = case["toks"], case["form"], case["vis"]
     full = render(toks, list(range(1, len(toks) + 1)), form)
     twin = render(toks, vis, form)
-    if form == "file":
+    if form == "filepoison":
+        o, t = observe_file(full, toks, True), observe_file(twin, toks, True)
+    elif form == "file":
         o, t = observe_file(full, toks), observe_file(twin, toks)
     else:
         o, t = observe(full, toks), observe(twin, toks)
@@ -186,8 +188,8 @@ def run(ctx: core.Ctx) -> int:
                 inb = True
             else:
                 vis.append(i)
-        form = rnd.choice(["bare", "hash", "slashes", "tight", "tight"]) if j % 4 else "file"
-        if form == "file" and "T" not in toks:
+        form = rnd.choice(["bare", "hash", "slashes", "tight", "tight"]) if j % 4 else ("file" if j % 8 else "filepoison")
+        if form in ("file", "filepoison") and "T" not in toks:
             toks[rnd.randrange(len(toks))] = "T"
             j2 = None
             vis, inb = [], False
